@@ -34,8 +34,24 @@ type Result struct {
 	seenDrift   map[string]bool
 }
 
+var (
+	curMu   sync.Mutex
+	current *Result
+)
+
 func NewResult() *Result {
-	return &Result{Extra: map[string]interface{}{}, seenSig: map[string]int{}, seenDrift: map[string]bool{}}
+	r := &Result{Extra: map[string]interface{}{}, seenSig: map[string]int{}, seenDrift: map[string]bool{}}
+	curMu.Lock()
+	current = r
+	curMu.Unlock()
+	return r
+}
+
+// Current returns the result document of the running engine (for the time-budget watchdog of cmd/vh).
+func Current() *Result {
+	curMu.Lock()
+	defer curMu.Unlock()
+	return current
 }
 
 // Violate records a violation; at most 3 per signature are kept.
